@@ -384,8 +384,10 @@ func (t *Task) convert(v Value, from, to types.Type, pos token.Pos) Value {
 				return FloatVal(float64(cv))
 			case types.String:
 				// string(rune)
-				cv := p.Concretize(a, "rune to string conversion")
-				return p.mkString(string(rune(signExt(cv, a.W))))
+				if !a.IsConst() {
+					return p.strFromTerms(t.encodeRuneSym(a))
+				}
+				return p.mkString(string(rune(signExt(a.Val, a.W))))
 			case types.UnsafePointer:
 				p.unsupported("conversion to unsafe.Pointer")
 			}
@@ -434,13 +436,18 @@ func (t *Task) convert(v Value, from, to types.Type, pos token.Pos) Value {
 			}
 			// string([]rune)
 			n := p.ConcInt(a.Len, "rune slice length")
-			buf := make([]byte, 0, n)
+			var bs []*Term
 			for i := 0; i < n; i++ {
 				r := a.Arr.Slots[a.Off+i].(*Term)
-				cv := p.Concretize(r, "rune")
-				buf = utf8.AppendRune(buf, rune(signExt(cv, 32)))
+				if r.IsConst() {
+					for _, b := range utf8.AppendRune(nil, rune(signExt(r.Val, 32))) {
+						bs = append(bs, p.C.Const(8, uint64(b)))
+					}
+					continue
+				}
+				bs = append(bs, t.encodeRuneSym(r)...)
 			}
-			return p.mkString(string(buf))
+			return p.strFromTerms(bs)
 		}
 		return a
 	case Ptr:
